@@ -432,3 +432,24 @@ def masked_permute_groups(prefix, props, cfg="C64", shares=(2, 3, 4)):
                             functions=[f], timeout=1800,
                             expect_classes=["loop_invariant_step", "loop_invariant_base"] + (["postcondition", "assigns"] if stg == "B" else ["assertion"])))
     return gs
+
+
+def prng_groups(prefix, props, cfg="C64", tier="quick"):
+    gs = []
+    srcs = ["src/random/ascon-prng.c", "src/random/ascon-random.c", ("src/hash/ascon-xof.c", XOF_RENAME), BACKEND_SRC[cfg], CLEAN]
+    entries = [(0, 0), (5, 0), (0, 1), (3, 1)] if tier == "quick" else [(c, m) for m in (0, 1) for c in range(8)]
+    ops = [("init", [(0, 0)]), ("fetch", entries), ("feed", entries), ("reseed", entries), ("random", [(0, 0)]),
+           ("save", [(0, 1)]), ("save_ok", entries[:2]), ("load_ok", entries[:2])]
+    for op, ents in ops:
+        for c, m in ents:
+            gs.append(Group("%s.%s.c%d.m%d.%s" % (prefix, op, c, m, cfg), props, "harness/h_prng.c", "h_prng", srcs, cfg=cfg,
+                            defs=["VERIF_PLAIN", "OP_" + op, "VERIF_COUNT=%d" % c, "VERIF_MODE=%d" % m, "VERIF_ABSTRACT_P", "VERIF_L1_SUMMARY"],
+                            functions=["ascon_random_" + op.replace("_ok", "_seed").replace("save", "save_seed") if op != "random" else "ascon_random"],
+                            drop_unused=True, unwind=66, timeout=900, expect_classes=["assertion"]))
+    for n in ((1, 5, 8, 13) if tier == "quick" else range(0, 20)):
+        for c, m in entries[:2]:
+            gs.append(Group("%s.feed_short%d.c%d.m%d.%s" % (prefix, n, c, m, cfg), props, "harness/h_prng.c", "h_prng", srcs, cfg=cfg,
+                            defs=["VERIF_PLAIN", "OP_feed_short", "VERIF_N=%d" % n, "VERIF_COUNT=%d" % c, "VERIF_MODE=%d" % m,
+                                  "VERIF_ABSTRACT_P", "VERIF_L1_SUMMARY"], functions=["ascon_random_feed"],
+                            drop_unused=True, unwind=66, timeout=900, expect_classes=["assertion"]))
+    return gs
